@@ -46,17 +46,8 @@ def categories(line):
 def run(ctx):
     quick = ctx.tier == "quick"
     ctx.build_go()
-    ctx.extract(["lexer", "tables", "specmaps"])
-    try:
-        ctx.prove("Emerge.Props.C07")
-        if not quick:
-            ctx.leanchecker("Emerge.Props.C07")
-    except Broken as b:
-        ctx.add_broken(b.what, b.detail)
-        ok, out = ctx.lake(["model"])
-        if not ok:
-            ctx.add_broken("model driver no longer builds", out[-2000:])
-            return ctx.finish(LEVEL, {"evaluations": 0, "distinct_nontrivial": 0, "samples": [], "explanation": "aborted"}, [])
+    if not ctx.prepare(["lexer", "tables", "specmaps"], "Emerge.Props.C07", quick):
+        return ctx.finish(LEVEL, {"evaluations": 0, "distinct_nontrivial": 0, "samples": [], "explanation": "aborted"}, [])
     cases = gen_cases(ctx, 1500 if quick else 25000, defect_rate=0.55)
     texts = [c[1] for c in cases]
     impl, model = run_specs(ctx, texts)
